@@ -14,6 +14,16 @@ CLAIMED = {
              "model tied to code by sampled differential check; numpy exp passed as data.",
         technique="Coq proof over R of the model + vm_compute/PrimFloat correspondence with the real function",
         design="7/C02"),
+    "C03": dict(
+        text="Coq theorems for every finite edge list, every non-zero area function, every weight and field: L = D.G, "
+             "area-weighted sum of divergence = 0, boundary-flux integral, symmetric + negative semi-definite (discrete Green "
+             "identity), kernel = constants on a positively-connected mesh, Hermitian covariant Laplacian for arbitrary complex "
+             "links, gradient exact on linear functions; correspondence of the COO builders with the four build_* functions "
+             "(every stored entry, PrimFloat) on Delaunay and Triangle meshes; identities re-checked on the implementation's matrices.",
+        note="Coq kernel; stdlib real-number axioms; sparse-matrix duplicate-summing semantics modelled (apply_coo) and compared; "
+             "numpy exp passed as data.",
+        technique="Coq proof by induction over edge lists + vm_compute/PrimFloat entry-wise correspondence",
+        design="7/C03"),
 }
 
 PENDING_REASON = "check not built yet in this session (planned, see DESIGN.md section 7); not claimed until it runs"
